@@ -20,6 +20,27 @@ def mk(t, n, strat, ncols, band=None):
                    wit, ref, regions, stages, obl, extra={'poly_cap': 600000, 'max_steps': 300000000})
 
 
+def mk_permdiag(t, n, strat, ncols, perm, form='tt'):
+    """pivoted strategies on A = P D: a positive diagonal matrix with two rows exchanged so that a leading block of A is singular (only
+    a strategy that really pivots can solve it).  Every comparison of the library's pre-pivot search is then |0| against |del| or
+    |0| against |0| and is decided by the declared signs, so sizes beyond the closed forms are reachable without a case split.  The
+    library pre-pivots on the ORIGINAL matrix column by column (rows i >= j only), which undoes products of disjoint transpositions
+    but not general permutations; the family stays inside that domain.  form: which operands are passed as expressions (tt, te, et,
+    ee) - each combination is a separate overload that must forward the requested strategy"""
+    ct = CTYPE[t]
+    ta = tensor_t(t, [n, n]); tb = tensor_t(t, [n] if ncols == 0 else [n, ncols]); nc = max(1, ncols)
+    ea = 'A' if form[0] == 't' else '(A+0)'; eb = 'b' if form[1] == 't' else '(b+0)'
+    wit = 'extern "C" void @W@(const %s& A, const %s& b, %s& x){ x = solve<SolveCompType::%s>(%s, %s); }' % (ta, tb, tb, strat, ea, eb)
+    pre = ('extern "C" void @R@pre(const %s* lam, const %s* del, const %s* mu, %s* A){ static const int pm[%d] = {%s}; for(int i=0;i<%d;i++) for(int j=0;j<%d;j++){ int p = pm[i]; A[i*%d+j] = (p==j) ? del[p] : (%s)0; } }'
+           % (ct, ct, ct, ct, n, ','.join(map(str, perm)), n, n, n, ct))
+    rhs = 'extern "C" void @R@rhs(const %s* A, const %s* x0, %s* b){ for(int i=0;i<%d;i++) for(int c=0;c<%d;c++){ %s s=0; for(int k=0;k<%d;k++) s += A[i*%d+k]*x0[k*%d+c]; b[i*%d+c]=s; } }' % (ct, ct, ct, n, nc, ct, n, n, nc, nc)
+    regions = ldu_regions(t, n, positive=True) + [treg('A', t, [n, n], 'in', init='undef'), rreg('x0', t, n * nc, role='in', init='sym'), treg('b', t, [n] if ncols == 0 else [n, ncols], 'in', init='undef'), treg('x', t, [n] if ncols == 0 else [n, ncols], 'out')]
+    stages = [{'mod': 'ref', 'fn': '@R@pre', 'args': ['lam', 'del', 'mu', 'A']}, {'mod': 'ref', 'fn': '@R@rhs', 'args': ['A', 'x0', 'b']}, {'mod': 'wit', 'fn': '@W@', 'args': ['A', 'b', 'x']}]
+    obl = [{'kind': 'equal', 'a': 'x', 'b': 'x0', 'cells': n * nc, 'mode': 'ALG'}]
+    return Witness('solvepd_%s_%s_%d_c%d_%s_%s' % (t, strat, n, ncols, ''.join(map(str, perm)) if n <= 9 else 'p%d' % (hash(tuple(perm)) % 1000), form), 'solve.' + strat + '.permdiag.' + form,
+                   {'type': t, 'n': n, 'strategy': strat, 'cols': ncols, 'perm': list(perm), 'form': form}, wit, pre + '\n' + rhs, regions, stages, obl, extra={'poly_cap': 600000, 'max_steps': 300000000, 'max_ms': 200000})
+
+
 def mk_separable(t, n, strat, ncols):
     """plain symbolic input, multi-column right-hand side: column j of X must not mention any other column of B"""
     ta = tensor_t(t, [n, n]); tb = tensor_t(t, [n, ncols])
@@ -85,6 +106,21 @@ def witnesses(tier, seed):
                         continue
                     w = mk(t, n, strat, nc); w.family = 'solve.' + strat + '.pivoted'; w.extra['max_ms'] = 400000
                     W.append(w)
+    # pivoted strategies beyond the closed forms, on matrices only a pivoting strategy can solve, through every operand-form overload
+    k = 0
+    def swp(n, *pairs):
+        p = list(range(n))
+        for a, b in pairs:
+            p[a], p[b] = p[b], p[a]
+        return p
+    # (the inverse-based pivoted strategy and sizes 6 and 9 were tried and dropped: the interpreter meets data-dependent addresses it
+    # cannot resolve there / exceeds its budget; n = 5 is the first size beyond the closed forms, which is what the family is for)
+    for strat in ('SimpleLUPiv', 'BlockLUPiv'):
+        for (n, perm) in [(2, swp(2, (0, 1))), (5, swp(5, (0, 4)))] + ([] if quick else [(5, swp(5, (1, 4))), (5, swp(5, (0, 3), (1, 4)))]):
+            for form in ('tt', 'te', 'et', 'ee'):
+                for nc in (0, 2):
+                    k += 1
+                    W.append(mk_permdiag(['f64', 'f32'][k % 2], n, strat, nc, perm, form))
     W += pivot_helper_witnesses(['colwise'], tier)
     return group_sort(W)
 
